@@ -635,8 +635,69 @@ func (c *c10) Generate(cx *Ctx, chunk int) []*Item {
 			bmeta, _ := json.Marshal(bm)
 			items = append(items, &Item{Cases: []*proto.Case{bc}, Meta: bmeta})
 		}
+		// every 8th clause additionally: its variables are bound by the asserting query AFTER the assert; clause/2 and
+		// retract/1 called later in the same query must still see the clause as it was stored
+		if vs := term.VarsOf(bound); i%8 == 4 && len(vs) > 0 {
+			var vl []*term.Term
+			for _, x := range vs {
+				vl = append(vl, term.V(x))
+			}
+			lm := &c10Meta{Clause: bound, Bound: bound, Arity: ar, Kind: "later"}
+			lc := &proto.Case{Kind: "prolog", Setup: []string{c10Helpers, ":- dynamic(p/" + fmt.Sprint(ar) + ")."},
+				Inputs: []*term.Term{bound, term.L(vl...)},
+				Steps: []proto.Step{
+					{Query: "verif_in(0, C), verif_in(1, Vs), assertz(C), late_bind(Vs), clause(" + hd + ", B).", Max: 3},
+					{Query: "verif_in(0, C), verif_in(1, Vs), asserta(C), late_bind(Vs), retract((" + hd + " :- B)).", Max: 1},
+					{Query: "clause(" + hd + ", B).", Max: 12},
+				}}
+			lc.Setup[0] += "late_bind([]).\nlate_bind([late_bound|T]) :- late_bind(T).\n"
+			lmeta, _ := json.Marshal(lm)
+			items = append(items, &Item{Cases: []*proto.Case{lc}, Meta: lmeta})
+		}
 	}
 	return items
+}
+
+// judgeLater: the variables of the clause term were bound by the asserting query after the assert.
+func (c *c10) judgeLater(m *c10Meta, outs []*run.Outcome) Verdict {
+	out := outs[0]
+	if out.Crash != nil || out.Res == nil {
+		return Verdict{Status: Inconclusive, Msg: "worker died on the bound-after-assert case"}
+	}
+	res := out.Res
+	if res.Fatal != "" || len(res.Steps) < 3 {
+		return Verdict{Status: Inconclusive, Msg: "worker: " + res.Fatal}
+	}
+	v := Verdict{Status: Held, NonTrivial: true, Extra: map[string]int64{"bound_after_assert": 1}}
+	fail := func(msg string) Verdict {
+		v.Status = Violated
+		v.Msg = fmt.Sprintf("%s | the query asserts the clause, THEN binds all its variables to late_bound, then calls clause/2 (retract/1): %s", msg, m.Bound)
+		return v
+	}
+	args, body := c10Stored(m.Bound)
+	want := append(append([]*term.Term{}, args...), body)
+	wants := []int{1, 1, 1}
+	names := []string{"assertz, bind, clause/2", "asserta, bind, retract/1", "clause/2 afterwards"}
+	for k := 0; k < 3; k++ {
+		st := res.Steps[k]
+		if st.Err != nil {
+			return fail(names[k] + " raised " + st.Err.Text)
+		}
+		if len(st.Answers) != wants[k] {
+			return fail(fmt.Sprintf("%s: %d answers, expected %d", names[k], len(st.Answers), wants[k]))
+		}
+		a := st.Answers[0]
+		got := make([]*term.Term, 0, m.Arity+1)
+		for i := 0; i < m.Arity; i++ {
+			got = append(got, a[fmt.Sprintf("V%d", i)])
+		}
+		got = append(got, a["B"])
+		if !term.VariantAll(want, got) {
+			return fail(fmt.Sprintf("%s shows %s :- %s, expected a variant of the clause as stored", names[k], term.C("p", got[:m.Arity]...), got[m.Arity]))
+		}
+	}
+	v.Sample = map[string]interface{}{"clause": m.Bound.String()}
+	return v
 }
 
 // goalVars returns the variables that occur as goals in the body of a clause.
@@ -791,6 +852,9 @@ func (c *c10) Judge(cx *Ctx, it *Item, outs []*run.Outcome) Verdict {
 	}
 	if m.Kind == "backtrack" {
 		return c.judgeBacktrack(&m, outs)
+	}
+	if m.Kind == "later" {
+		return c.judgeLater(&m, outs)
 	}
 	v := Verdict{Status: Held, Extra: map[string]int64{}}
 	_, alts := clauseAlternatives(m.Bound)
